@@ -459,3 +459,13 @@ CHECKS['C09'].update({
             "NEGATE / MINUSNEGATE exclusion nor as a tilde pattern (isNegative_escape, tildePos_escape); the only hypothesis is bracex's keep_escapes contract "
             "(expand(escape s) = [escape s]). Tie: K3 for escape / is_magic"),
 })
+
+_c01 = CHECKS['C01']['text']
+CHECKS['C01'].update({
+    'text': _c01.replace("Theorems (Lean): C01_faithful —", "Theorems (Lean): C01_read — for EVERY string p the strict reader of the documented grammar accepts (every "
+            "spelling: escaped ordinary characters, star runs, `]` first / `-` last / escaped bracket members, `^` negation, `\\.` …), read as g in the stated `!(` "
+            "scope, the regex the faithful port emits for p fully matches a non-empty name iff the name is in Pat.Lang g (minus D1, D3) — pass_read (bracket_read: "
+            "a simulation between the reader's bracket loop and `_sequence`), hence code = spec on every accepted string (C01_read_spec). C01_faithful —"),
+    'note': TB + "strings the strict reader rejects (reversed ranges, `!(...)` nested in another group or followed by wildcards, …) are outside the documented "
+            "grammar / the stated scope (see Spec/README.md, DESIGN §11.5) and remain tied by K1 / K1' sampling. Known findings KF-D1, KF-D3.",
+})
